@@ -203,6 +203,11 @@ class ArrBase(object):
     def squeeze(self, axis=None):
         return NP.squeeze(self, axis)
 
+    def transpose(self, *axes):
+        if len(axes) == 1 and isinstance(axes[0], (tuple, list)):
+            axes = tuple(axes[0])
+        return NP.transpose(self, axes if axes else None)
+
     def astype(self, t):
         ts = t if isinstance(t, str) else getattr(t, '__name__', str(t))
         if 'int' in ts:
@@ -1630,6 +1635,41 @@ class _NP(object):
             return fn()
         return Arr(shape, fn, 'real')
 
+    def einsum(self, subscripts, *ops):
+        """einsum over operands of concrete shape (explicit 'in->out' form)"""
+        import itertools as it
+        ins, out = subscripts.replace(' ', '').split('->')
+        ins = ins.split(',')
+        ops = [to_arr(o) for o in ops]
+        if len(ins) != len(ops):
+            raise PyRaise('ValueError', 'einsum: operand count')
+        dims = {}
+        for sub, o in zip(ins, ops):
+            if len(sub) != o.ndim:
+                raise PyRaise('ValueError', 'einsum: rank mismatch')
+            for ch, d in zip(sub, o.shape):
+                if not dim_conc(d):
+                    raise Unsupported('einsum over a symbolic extent')
+                if dims.setdefault(ch, d) != d:
+                    raise PyRaise('ValueError', 'einsum: size mismatch')
+        summed = [ch for ch in dims if ch not in out]
+        fs = [o.snap() for o in ops]
+        shape = tuple(dims[ch] for ch in out)
+
+        def fn(*idx):
+            env = dict(zip(out, idx))
+            tot = 0
+            for combo in it.product(*[range(dims[ch]) for ch in summed]):
+                env.update(zip(summed, combo))
+                term = 1
+                for sub, f in zip(ins, fs):
+                    term = sym.mul(term, f(*[env[ch] for ch in sub]))
+                tot = sym.add(tot, term)
+            return tot
+        if not shape:
+            return fn()
+        return Arr(shape, fn, 'real')
+
     def argsort(self, a):
         a = to_arr(a) if not isinstance(a, (list, tuple)) else a
         if isinstance(a, (list, tuple)) and all(isinstance(x, str) for x in a):
@@ -1803,6 +1843,40 @@ class _NpzFile(dict):
         return list(self._stored)
 
 
+class _Linalg(object):
+    def inv(self, a):
+        """matrix inverse: exact (adjugate) for concrete 1x1..3x3, otherwise an opaque array with the assumed contract
+        A.inv(A) = I (not expanded); the argument is kept on the result as `.inv_of` for contracts"""
+        a = to_arr(a)
+        if a.ndim == 2 and dim_conc(a.shape[0]) and a.shape[0] == a.shape[1] and a.shape[0] <= 3:
+            n = a.shape[0]
+            m = [[a.get(i, j) for j in range(n)] for i in range(n)]
+            if n == 1:
+                return Arr((1, 1), lambda i, j: sym.div(1, m[0][0]), 'real')
+            if n == 2:
+                det = sym.sub(sym.mul(m[0][0], m[1][1]), sym.mul(m[0][1], m[1][0]))
+                adj = [[m[1][1], sym.sub(0, m[0][1])], [sym.sub(0, m[1][0]), m[0][0]]]
+                return Arr((2, 2), lambda i, j: sym.div(_sel_nd({(p, q): adj[p][q] for p in range(2) for q in range(2)}, (2, 2), (i, j)), det), 'real')
+            def cof(i, j):
+                r = [x for x in range(3) if x != i]
+                c = [x for x in range(3) if x != j]
+                v = sym.sub(sym.mul(m[r[0]][c[0]], m[r[1]][c[1]]), sym.mul(m[r[0]][c[1]], m[r[1]][c[0]]))
+                return v if (i + j) % 2 == 0 else sym.sub(0, v)
+            det = _fold(sym.add, [sym.mul(m[0][j], cof(0, j)) for j in range(3)])
+            items = {(i, j): sym.div(cof(j, i), det) for i in range(3) for j in range(3)}
+            return Arr((3, 3), lambda i, j: _sel_nd(items, (3, 3), (i, j)), 'real')
+        c = CTX()
+        F = c.fresh_fn('inv', a.ndim, 'real')
+        if 'assumed-contract:np.linalg.inv (A.inv(A) = I when it returns)' not in c.trace:
+            c.trace.append('assumed-contract:np.linalg.inv (A.inv(A) = I when it returns)')
+        r = Arr(a.shape, lambda *i: SV(F(*[zterm(_generic(k)) for k in i])), 'real')
+        r.inv_of = a
+        return r
+
+    def matrix_rank(self, a):
+        raise Unsupported('np.linalg.matrix_rank')
+
+
 class _Finfo(object):
     @property
     def tiny(self):
@@ -1904,3 +1978,4 @@ class _NaN(object):
 NP = _NP()
 NP.nan = _NaN()
 NP.inf = sym.Inf()
+NP.linalg = _Linalg()
